@@ -151,7 +151,8 @@ struct Model {
     virtual Model *clone() const = 0;
     virtual Result apply(const Op &op) = 0;       // ideal result + state transition
     virtual std::string dump() const = 0;         // canonical observable contents
-    virtual uint64_t hash() const { return fnv1a(dump()); }
+    virtual std::string full_state() const { return dump(); }   // everything that can influence a later result
+    virtual uint64_t hash() const { return fnv1a(full_state()); }
 };
 
 struct GenState { long n = 0; long extra = 0; };   // generator's rough idea of the container size
